@@ -204,6 +204,75 @@ def structured_valid(rnd: random.Random, n: int) -> list[bytes]:
     return out
 
 
+def structured_boundary() -> list[bytes]:
+    """Well-formed requests built with gallia's own request classes at the BOUNDARY values of their parameters
+    (zero / one / maximal addresses, sizes, identifiers, masks; empty and long records; explicit
+    addressAndLengthFormatIdentifiers).  Deterministic; a parameter record the class refuses is skipped."""
+    S = service
+    mk: list[Callable[[], Any]] = []
+    addrs = [0, 1, 0x80, 0xFF, 0x100, 0xFFFF, 0x10000, 0xFFFFFFFF]
+    sizes = [0, 1, 0xFF, 0x100, 0xFFFF]
+    for a in addrs:
+        for z in sizes:
+            mk.append(lambda a=a, z=z: S.ReadMemoryByAddressRequest(a, z))
+            mk.append(lambda a=a, z=z: S.RequestDownloadRequest(a, z))
+            mk.append(lambda a=a, z=z: S.RequestUploadRequest(a, z))
+        for fmt in (0x11, 0x12, 0x24, 0x14, 0x44):
+            mk.append(lambda a=a, fmt=fmt: S.ReadMemoryByAddressRequest(a, 0, fmt))
+            mk.append(lambda a=a, fmt=fmt: S.ReadMemoryByAddressRequest(a, 1, fmt))
+        for data in (b"", b"\x00", bytes(255)):
+            mk.append(lambda a=a, data=data: S.WriteMemoryByAddressRequest(a, data))
+    for did in (0x0000, 0x0001, 0xF186, 0xF190, 0xFFFF):
+        mk.append(lambda did=did: S.ReadDataByIdentifierRequest(did))
+        mk.append(lambda did=did: S.ReadDataByIdentifierRequest([did, did]))
+        for data in (b"", b"\x00", bytes(64)):
+            mk.append(lambda did=did, data=data: S.WriteDataByIdentifierRequest(did, data))
+            mk.append(lambda did=did, data=data: S.InputOutputControlByIdentifierRequest(did, data))
+            mk.append(lambda did=did, data=data: S.ShortTermAdjustmentRequest(did, data))
+        mk.append(lambda did=did: S.ReturnControlToECURequest(did))
+        mk.append(lambda did=did: S.ResetToDefaultRequest(did))
+        mk.append(lambda did=did: S.FreezeCurrentStateRequest(did))
+        for sup in (False, True):
+            for data in (b"", bytes(8)):
+                mk.append(lambda did=did, data=data, sup=sup: S.StartRoutineRequest(did, data, sup))
+                mk.append(lambda did=did, data=data, sup=sup: S.StopRoutineRequest(did, data, sup))
+                mk.append(lambda did=did, data=data, sup=sup: S.RequestRoutineResultsRequest(did, data, sup))
+    for sup in (False, True):
+        for v in (0x00, 0x01, 0x02, 0x03, 0x04, 0x05, 0x7E, 0x7F):
+            mk.append(lambda v=v, sup=sup: S.DiagnosticSessionControlRequest(v, sup))
+            mk.append(lambda v=v, sup=sup: S.ECUResetRequest(v, sup))
+            mk.append(lambda v=v, sup=sup: S.ControlDTCSettingRequest(v, b"", sup))
+            mk.append(lambda v=v, sup=sup: S.CommunicationControlRequest(v, 0, sup))
+            mk.append(lambda v=v, sup=sup: S.CommunicationControlRequest(v, 0xFF, sup))
+        for lvl in (0x01, 0x03, 0x7D):
+            mk.append(lambda lvl=lvl, sup=sup: S.RequestSeedRequest(lvl, b"", sup))
+            for key in (b"", b"\x00", bytes(32)):
+                mk.append(lambda lvl=lvl, key=key, sup=sup: S.SendKeyRequest(lvl + 1, key, sup))
+        for mask in (0x00, 0x01, 0xFF):
+            mk.append(lambda mask=mask, sup=sup: S.ReportDTCByStatusMaskRequest(mask, sup))
+            mk.append(lambda mask=mask, sup=sup: S.ReportNumberOfDTCByStatusMaskRequest(mask, sup))
+        mk.append(lambda sup=sup: S.ReportSupportedDTCRequest(sup))
+        mk.append(lambda sup=sup: S.TesterPresentRequest(sup))
+    for g in (0x000000, 0x000001, 0xFFFFFE, 0xFFFFFF):
+        mk.append(lambda g=g: S.ClearDiagnosticInformationRequest(g))
+    for bsc in (0, 1, 255):
+        for data in (b"", b"\x00", bytes(255)):
+            mk.append(lambda bsc=bsc, data=data: S.TransferDataRequest(bsc, data))
+    for data in (b"", b"\x00", bytes(16)):
+        mk.append(lambda data=data: S.RequestTransferExitRequest(data))
+    out: list[bytes] = []
+    seen: set[bytes] = set()
+    for f in mk:
+        try:
+            pdu = bytes(f().pdu)
+        except Exception:  # noqa: BLE001
+            continue
+        if pdu not in seen:
+            seen.add(pdu)
+            out.append(pdu)
+    return out
+
+
 def model_aware_valid(m: Model, session: int, rnd: random.Random, n: int) -> list[Item]:
     """Parsable requests aimed at the services / sub-functions the session really offers."""
     here = m.get(session, {})
@@ -287,5 +356,5 @@ async def run_history(p: Probe, m: Model, items: list[Item], *, home: int | None
     return steps
 
 
-__all__ = ["structural_family", "short_family", "structured_valid", "model_aware_valid", "sweep01", "sampled23",
+__all__ = ["structural_family", "short_family", "structured_valid", "structured_boundary", "model_aware_valid", "sweep01", "sampled23",
            "sf256", "run_history", "right_key", "wrong_key", "unoffered_session", "parsable"]
